@@ -190,7 +190,12 @@ class Cache:
 
             # For union, visible columns must match (validated in verb function)
             # Hidden columns: are removed (we don't keep names for them and it is unlike they match in uuid)
-            res.cols = {uid: col for uid, col in self.cols.items() if uid in self.uuid_to_name}
+            # a column that is constant in both inputs is in general not constant in the stacked result
+            res.cols = {
+                uid: Col(col.name, col._ast, uid, types.without_const(col._dtype), col._ftype)
+                for uid, col in self.cols.items()
+                if uid in self.uuid_to_name
+            }
             # Visible columns should match, so we keep left table's name_to_uuid
             # (right table's visible columns are the same by validation)
             res.name_to_uuid = self.name_to_uuid.copy()
